@@ -1681,6 +1681,13 @@ func (n *normalizer) sroaRound() bool {
 						sroaWhy += fmt.Sprintf(" #%d", 3)
 					}
 				case *ast.ParenExpr:
+					// (x).f, as an expression substituted for a helper call writes it: a field selection like x.f
+					if gs, isSel := u.grand.(*ast.SelectorExpr); isSel && gs.X == ast.Expr(p) && (r != "val" || a == final) {
+						if sel := n.info.Selections[gs]; sel != nil && sel.Kind() == types.FieldVal && len(sel.Index()) == 1 {
+							sels = append(sels, gs)
+							break
+						}
+					}
 					// (&(x)) / (x): accepted only as part of a member definition
 					okDef := false
 					for m := range role {
